@@ -1,0 +1,150 @@
+//go:build verif
+
+package machine
+
+// Contracts for the verification framework in /verif (comment-only file; it
+// contains no code and is excluded from normal builds by the build tag).
+// Syntax: /verif/DESIGN.md section 2.3.
+
+// ---- tick helpers (C01, C20) ----
+
+//@ func IsActiveTick(tick uint64) (r bool)
+//@   props C01 C20
+//@   ensures def: r == odd(tick)
+
+//@ func NextActive(tick uint64) (r uint64)
+//@   props C01 C20
+//@   requires room: tick <= MaxU64 - 2
+//@   ensures def: odd(r) && r > tick && r - tick <= 2 && (r - tick == 2 <==> odd(tick))
+
+//@ func NextInactive(tick uint64) (r uint64)
+//@   props C01 C20
+//@   requires room: tick <= MaxU64 - 2
+//@   ensures def: !odd(r) && r > tick && r - tick <= 2 && (r - tick == 2 <==> !odd(tick))
+
+//@ func NextActiveIn(tick uint64) (r int)
+//@   props C01 C20
+//@   ensures def: odd(tick + r) && (r == 1 || r == 2) && (r == 2 <==> odd(tick))
+
+//@ func NextInactiveIn(tick uint64) (r int)
+//@   props C01 C20
+//@   ensures def: !odd(tick + r) && (r == 1 || r == 2) && (r == 2 <==> !odd(tick))
+
+// ---- generic slice helpers (C02, C20) ----
+
+//@ func slicesFilter[S ~[]E, E any](coll S, fn func(item E, i int) bool) (ret S)
+//@   props C02 C20
+//@   ensures fresh: fresh(ret) && !isnil(ret)
+//@   ensures sub:   len(ret) <= len(coll)
+//@   ensures mem:   forall x E :: mem(ret, x) <==> (exists i int :: 0 <= i && i < len(coll) && coll[i] == x && fn(x, i))
+//@   ensures full:  len(ret) == len(coll) ==> seqeq(ret, coll) && (forall i int :: 0 <= i && i < len(coll) ==> fn(coll[i], i))
+//@   ensures nodup: nodup(coll) ==> nodup(ret)
+//@   loop 1 invariant sub:  len(ret) <= i && fresh(ret) && !isnil(ret)
+//@   loop 1 invariant mem:  forall x E :: mem(ret, x) <==> (exists j int :: 0 <= j && j < i && coll[j] == x && fn(x, j))
+//@   loop 1 invariant full: len(ret) == i ==> (forall j int :: 0 <= j && j < i ==> ret[j] == coll[j] && fn(coll[j], j))
+//@   loop 1 invariant nodup: nodup(coll) ==> nodup(ret)
+
+//@ func slicesReverse[S ~[]E, E any](coll S) (ret S)
+//@   props C02 C20
+//@   ensures len: len(ret) == len(coll) && fresh(ret)
+//@   ensures rev: forall i int :: 0 <= i && i < len(coll) ==> ret[i] == coll[len(coll) - 1 - i]
+//@   loop 1 invariant len: len(ret) == len(coll) && fresh(ret)
+//@   loop 1 invariant rev: forall j int :: 0 <= j && j < i ==> ret[j] == coll[len(coll) - 1 - j]
+
+//@ func slicesUniq[T comparable](coll []T) (ret []T)
+//@   props C02 C20
+//@   ensures nodup: nodup(ret)
+//@   ensures same:  forall x T :: mem(ret, x) <==> mem(coll, x)
+//@   ensures fresh: fresh(ret) && !isnil(ret)
+//@   ensures id:    nodup(coll) ==> seqeq(ret, coll)
+//@   loop 1 invariant nodup: nodup(ret) && fresh(ret) && !isnil(ret) && len(ret) <= idx1
+//@   loop 1 invariant seen:  !isnil(seen) && (forall x T :: has(seen, x) <==> mem(ret, x))
+//@   loop 1 invariant mem:   forall x T :: mem(ret, x) <==> (exists j int :: 0 <= j && j < idx1 && coll[j] == x)
+//@   loop 1 invariant id:    nodup(coll) ==> len(ret) == idx1 && (forall j int :: 0 <= j && j < idx1 ==> ret[j] == coll[j])
+
+//@ func slicesWithout[S ~[]E, E comparable](coll S, el E) (ret S)
+//@   props C02 C08 C20
+//@   ensures fresh:   fresh(ret)
+//@   ensures absent:  !mem(coll, el) ==> seqeq(ret, coll)
+//@   ensures removed: mem(coll, el) ==> len(ret) == len(coll) - 1
+//@   ensures others:  forall x E :: x != el ==> (mem(ret, x) <==> mem(coll, x))
+//@   ensures gone:    nodup(coll) ==> !mem(ret, el) && nodup(ret)
+
+//@ func slicesNone[S1 ~[]E, S2 ~[]E, E comparable](col1 S1, col2 S2) (r bool)
+//@   props C02 C20
+//@   ensures def: r <==> (forall x E :: mem(col2, x) ==> !mem(col1, x))
+//@   loop 1 invariant none: forall j int :: 0 <= j && j < idx1 ==> !mem(col1, col2[j])
+
+//@ func slicesEvery[S1 ~[]E, S2 ~[]E, E comparable](col1 S1, col2 S2) (r bool)
+//@   props C02 C20
+//@   ensures def: r <==> subset(col2, col1)
+//@   loop 1 invariant all: forall j int :: 0 <= j && j < idx1 ==> mem(col1, col2[j])
+
+// ---- state-list algebra (C20) ----
+
+//@ func StatesDiff(states1 S, states2 S) (ret S)
+//@   props C02 C20
+//@   ensures def:   forall x string :: mem(ret, x) <==> mem(states1, x) && !mem(states2, x)
+//@   ensures fresh: fresh(ret)
+//@   ensures nodup: nodup(states1) ==> nodup(ret)
+
+//@ func StatesShared(states1 S, states2 S) (ret S)
+//@   props C02 C20
+//@   ensures def:   forall x string :: mem(ret, x) <==> mem(states1, x) && mem(states2, x)
+//@   ensures fresh: fresh(ret)
+//@   ensures nodup: nodup(states1) ==> nodup(ret)
+
+//@ func StatesEqual(states1 S, states2 S) (r bool)
+//@   props C20
+//@   ensures def: r <==> seteq(states1, states2)
+
+//@ func (s S) Sub(other S) (ret S)
+//@   props C20
+//@   ensures def: forall x string :: mem(ret, x) <==> mem(s, x) && !mem(other, x)
+
+//@ func (s S) Shared(other S) (ret S)
+//@   props C20
+//@   ensures def: forall x string :: mem(ret, x) <==> mem(s, x) && mem(other, x)
+
+//@ func (s S) Equal(other S) (r bool)
+//@   props C20
+//@   ensures def: r <==> seteq(s, other)
+
+//@ func (s S) EqualOrder(other S) (r bool)
+//@   props C20
+//@   ensures def: r <==> seqeq(s, other)
+//@   loop 1 invariant eq: forall j int :: 0 <= j && j < i ==> s[j] == other[j]
+
+//@ func (s S) Has(state string) (r bool)
+//@   props C20
+//@   ensures def: r <==> mem(s, state)
+
+//@ func (s S) Unique() (ret S)
+//@   props C20
+//@   ensures nodup: nodup(ret)
+//@   ensures same:  forall x string :: mem(ret, x) <==> mem(s, x)
+
+//@ func (s S) Add1(state ...string) (ret S)
+//@   props C20
+//@   ensures nodup: nodup(ret)
+//@   ensures union: forall x string :: mem(ret, x) <==> mem(s, x) || mem(state, x)
+
+//@ func SRem(src S, states ...S) (ret S)
+//@   props C20
+//@   requires set: nodup(src)
+//@   ensures def:   forall x string :: mem(ret, x) <==> mem(src, x) && !(exists a int :: 0 <= a && a < len(states) && mem(states[a], x))
+//@   ensures fresh: fresh(ret)
+//@   loop 1 invariant inv: nodup(s) && fresh(s) && 0 <= i && i <= len(states)
+//@   loop 1 invariant def: forall x string :: mem(s, x) <==> mem(src, x) && !(exists a int :: 0 <= a && a < i && mem(states[a], x))
+//@   loop 2 invariant inv: nodup(s) && fresh(s) && 0 <= ii && ii <= len(states[i]) && 0 <= i && i < len(states)
+//@   loop 2 invariant def: forall x string :: mem(s, x) <==> mem(src, x) && !(exists a int :: 0 <= a && a < i && mem(states[a], x)) && !(exists b int :: 0 <= b && b < ii && states[i][b] == x)
+
+//@ func (s S) Delete(states ...S) (ret S)
+//@   props C20
+//@   requires set: nodup(s)
+//@   ensures def: forall x string :: mem(ret, x) <==> mem(s, x) && !(exists a int :: 0 <= a && a < len(states) && mem(states[a], x))
+
+//@ func (s S) Delete1(states ...string) (ret S)
+//@   props C20
+//@   requires set: nodup(s)
+//@   ensures def: forall x string :: mem(ret, x) <==> mem(s, x) && !mem(states, x)
